@@ -111,14 +111,15 @@ Qed.
 (* ---- products ------------------------------------------------------------------------------ *)
 Lemma ind_mdotm y w kd ks a b a' b' n m p :
   0 < n -> 0 < m -> 0 < p -> WWf (sw (b3 w)) ->
+  rab_alias kd a b = false ->     (* not r.MdotM(r, r) on the dense side: known finding F-MDOTM-RR *)
   dm_ok w kd -> mwf w a -> mwf w b -> mdims w (XD kd) = (n, p) -> mdims w a = (n, m) -> mdims w b = (m, p) ->
   GoodM w ks -> mwf w a' -> mwf w b' -> mother w (mvec w ks) a' -> mother w (mvec w ks) b' ->
   mdims w (XS ks) = (n, p) -> mdims w a' = (n, m) -> mdims w b' = (m, p) ->
   mabs w a = mabs w a' -> mabs w b = mabs w b' ->
   mabs (fst (step4 y w (MdotM (XD kd) a b))) (XD kd) = mabs (fst (step4 y w (MdotM (XS ks) a' b'))) (XS ks).
 Proof.
-  intros Hn Hm Hp HW Hd A1 B1 Dd Da Db Hs A1' B1' Oa Ob Ds Da' Db' Ea Eb.
-  destruct (step_dense_mdotm y w kd a b n m p Hd A1 B1 Dd Da Db Hn Hm Hp (fun _ _ => HW)) as (_ & _ & X).
+  intros Hn Hm Hp HW Hal Hd A1 B1 Dd Da Db Hs A1' B1' Oa Ob Ds Da' Db' Ea Eb.
+  destruct (step_dense_mdotm y w kd a b n m p Hd A1 B1 Dd Da Db Hn Hm Hp (fun _ _ => HW) Hal) as (_ & _ & X).
   destruct (step_sparse_mdotm y w ks a' b' n m p Hs A1' B1' Oa Ob Ds Da' Db' Hn Hm Hp) as (_ & _ & _ & Y).
   rewrite X, Y, Ea, Eb. reflexivity.
 Qed.
@@ -147,4 +148,17 @@ Proof.
   destruct (step_dense_vdotm y w kd a b n m Hk A1 B1 Db Lr La Hn Hm Na) as (_ & _ & X).
   destruct (step_sparse_vdotm y w t a' b' n m HG A1' Oa B1' Ob Db' Lt La' Hn Hm) as (_ & _ & _ & Y).
   cbn [abs3]. rewrite X. cbn [abs3] in Y. rewrite Y, Ea, Eb. reflexivity.
+Qed.
+
+Lemma ind_mouter y w kd ks a b a' b' n m :
+  dm_ok w kd -> vwf w a -> vwf w b -> mdims w (XD kd) = (n, m) -> vlen w a = n -> vlen w b = m ->
+  GoodM w ks -> vwf w a' -> vwf w b' -> vother (mvec w ks) a' -> vother (mvec w ks) b' ->
+  mdims w (XS ks) = (n, m) -> vlen w a' = n -> vlen w b' = m ->
+  abs3 (b3 w) a = abs3 (b3 w) a' -> abs3 (b3 w) b = abs3 (b3 w) b' ->
+  mabs (fst (step4 y w (MOuter (XD kd) a b))) (XD kd) = mabs (fst (step4 y w (MOuter (XS ks) a' b'))) (XS ks).
+Proof.
+  intros Hd A1 B1 Dd La Lb Hs A1' B1' Oa Ob Ds La' Lb' Ea Eb.
+  destruct (step_dense_mouter y w kd a b n m Hd A1 B1 Dd La Lb) as (_ & _ & X).
+  destruct (step_sparse_mouter y w ks a' b' n m Hs A1' B1' Oa Ob Ds La' Lb') as (_ & _ & _ & Y).
+  rewrite X, Y, Ea, Eb. reflexivity.
 Qed.
